@@ -316,7 +316,9 @@ class Obj(Spec):
                 object.__setattr__(o, k, c(ev))
             return o
 
-        return SObj(cls, vals), conc
+        o = SObj(cls, vals)
+        object.__setattr__(o, "from_spec", True)  # (interp: a missing attribute is a gap of the specification)
+        return o, conc
 
 
 class New(Spec):
